@@ -380,3 +380,26 @@ def hist_info(call: Term) -> Dict[str, Any]:
         mask, data = data[2][0], data[2][1]
     return {"data": data, "mask": mask, "bins": kw(call, "bins", 1), "range": kw(call, "range", 2),
             "weights": kw(call, "weights", 4)}
+
+
+NON_WRAPPING = {"numpy.arccos", "numpy.arctan2", "numpy.arctan", "numpy.linalg.norm", "numpy.sqrt", "numpy.sum", ".sum", "numpy.square",
+                "numpy.abs", "numpy.cos", "numpy.sin", "numpy.exp", "numpy.power", "numpy.dot", "numpy.array", "numpy.asarray", ".copy",
+                "numpy.delete", "numpy.einsum", "numpy.hypot", "numpy.angle", ".astype", "numpy.newaxis", "numpy.arange", "builtins.range",
+                "builtins.len", "builtins.int", "builtins.float", "PyMatterSim.neighbors.read_neighbors.read_neighbors",
+                "builtins.open"}
+
+
+def no_wrap_possible(t: Term) -> bool:
+    """Every operation in the value is one that cannot fold a displacement back into the cell (no rounding, floor, modulo,
+    comparison/selection, and no call outside a table of plain element-wise / reduction functions): a raw position
+    difference flowing through such a value is definitely not a minimum-image vector."""
+    for x in walk(t):
+        if x[0] == "call":
+            if not isinstance(x[1], str) or x[1] not in NON_WRAPPING:
+                return False
+        elif x[0] == "bin" and x[1] in ("%", "//"):
+            return False
+        elif x[0] in ("cmp", "phi", "mu", "comp", "bool"):
+            return False
+    return True
+
